@@ -533,7 +533,9 @@ class Directory(MerkleNode):
             node = top_dir[dirpath]
             assert node.object_type == FromDiskType.DIRECTORY
             path, name = os.path.split(dirpath)
-            if dirpath and not path_filter(path, name, list(node.keys())):
+            # dirpath is relative to the top (b"/a/b"): give the filter the real parent
+            # path, as the first pass does
+            if dirpath and not path_filter(top_path + path, name, list(node.keys())):
                 # should be filtered
                 del top_dir[dirpath]
         top_dir.update_hash(force=True)
